@@ -675,6 +675,234 @@ def r17_new_types_distinct_and_complete_unions(idx, r):
         raise AnchorMissing("_getAllNucs")
 
 
+S = "armi.physics.neutronics.crossSectionSettings"
+
+
+def _settings_evaluator(idx, m, cls, state):
+    """MiniEval over the fragment the XS-settings defaulting code is written in: dict / set displays, `type(x) is T`, getattr / setattr on
+    self (object state kept in `state`), read-only properties of the class (evaluated, not assumed), `<Enum>.getStr(<Enum>.MEMBER)` resolved
+    through the enum's own `_mapping` table, constants of imported modules as opaque-but-comparable tokens.  Anything else: AnalysisError."""
+    from ..minieval import _OPAQUE, MiniEval
+    from ..minieval import Raised as Raised_
+
+    consts = {}
+    for n in m.tree.body:
+        if isinstance(n, ast.Assign) and len(n.targets) == 1 and isinstance(n.targets[0], ast.Name):
+            try:
+                v = idx.fold(m, n.value)
+            except AnalysisError:
+                continue
+            if isinstance(v, (int, float, str, bool)) or v is None:
+                consts[n.targets[0].id] = v
+
+    def enum_str(call):
+        base = dotted(call.func.value)
+        c = m.classes.get(base or "")
+        if c is None or len(call.args) != 1 or call.keywords or "_mapping" not in c.methods or "getStr" not in c.methods:
+            raise AnalysisError(f"cannot resolve `{norm(call)[:60]}`")
+        if not any(call_attr(x) == "_mapping" for x in iter_calls(c.methods["getStr"].node)):
+            raise AnchorMissing(f"{base}.getStr no longer reads {base}._mapping()")
+        table = {k.attr: v.value for d in ast.walk(c.methods["_mapping"].node) if isinstance(d, ast.Dict) for k, v in zip(d.keys, d.values)
+                 if isinstance(k, ast.Attribute) and isinstance(v, ast.Constant) and isinstance(v.value, str)}
+        a = call.args[0]
+        if not (isinstance(a, ast.Attribute) and dotted(a.value) == base and a.attr in table):
+            raise AnalysisError(f"cannot resolve `{norm(call)[:60]}` through {base}._mapping()")
+        return table[a.attr]
+
+    class Ev(MiniEval):
+        def _stmt(self, s, env):
+            if isinstance(s, ast.Expr) and isinstance(s.value, ast.Call) and dotted(s.value.func) == "setattr" and len(s.value.args) == 3 and norm(s.value.args[0]) == "self":
+                k = self._ev(s.value.args[1], env)
+                try:
+                    state[k] = self._ev(s.value.args[2], env)
+                except AnalysisError:
+                    state[k] = _OPAQUE
+                return
+            if isinstance(s, ast.Expr) and isinstance(s.value, ast.Call) and isinstance(s.value.func, ast.Attribute) and s.value.func.attr == "update" and len(s.value.args) == 1 and not s.value.keywords:
+                tgt, src = self._ev(s.value.func.value, env), self._ev(s.value.args[0], env)
+                if isinstance(tgt, dict) and isinstance(src, dict):
+                    tgt.update(src)
+                    return
+            if isinstance(s, ast.Assign) and len(s.targets) == 1 and isinstance(s.targets[0], ast.Attribute) and norm(s.targets[0].value) == "self":
+                try:
+                    state[s.targets[0].attr] = self._ev(s.value, env)
+                except AnalysisError:
+                    state[s.targets[0].attr] = _OPAQUE
+                return
+            return super()._stmt(s, env)
+
+        def _ev(self, e, env):
+            if isinstance(e, ast.Dict):
+                out = {}
+                for k, v in zip(e.keys, e.values):
+                    if k is None:
+                        out.update(self._ev(v, env))
+                        continue
+                    try:
+                        out[self._ev(k, env)] = self._ev(v, env)
+                    except AnalysisError:
+                        out[self._ev(k, env)] = _OPAQUE
+                return out
+            if isinstance(e, ast.Set):
+                return [self._ev(x, env) for x in e.elts]
+            if isinstance(e, ast.Attribute) and isinstance(e.value, ast.Name) and e.value.id == "self":
+                if e.attr in state:
+                    if state[e.attr] is _OPAQUE:
+                        raise AnalysisError(f"minieval: `self.{e.attr}` is opaque")
+                    return state[e.attr]
+                p = cls.resolve(e.attr)
+                if p is not None and any(dotted(d) == "property" for d in p.node.decorator_list):
+                    return Ev(consts, skip_calls=self.skip, resolver=self.resolver).run(p.node, {})[0]
+                raise AnalysisError(f"minieval: `self.{e.attr}` is neither set by __init__ nor a property")
+            if isinstance(e, ast.Attribute) and dotted(e) and dotted(e).split(".")[0] in m.imports and dotted(e).split(".")[0] not in env:
+                return f"<{dotted(e)}>"
+            if isinstance(e, ast.Compare) and len(e.ops) == 1 and isinstance(e.ops[0], (ast.Is, ast.IsNot, ast.Eq, ast.NotEq)):
+                for x, y in ((e.left, e.comparators[0]), (e.comparators[0], e.left)):
+                    if isinstance(x, ast.Call) and dotted(x.func) == "type" and len(x.args) == 1 and isinstance(y, ast.Name) and y.id in ("bool", "list", "str", "int", "float", "tuple", "dict"):
+                        return (type(self._ev(x.args[0], env)).__name__ == y.id) == isinstance(e.ops[0], (ast.Is, ast.Eq))
+            if isinstance(e, ast.Call) and not e.keywords:
+                if isinstance(e.func, ast.Attribute) and e.func.attr == "getStr":
+                    return enum_str(e)
+                if dotted(e.func) == "getattr" and len(e.args) == 2 and norm(e.args[0]) == "self":
+                    k = self._ev(e.args[1], env)
+                    if k not in state:
+                        raise Raised_(f"AttributeError: {k}")
+                    if state[k] is _OPAQUE:
+                        raise AnalysisError(f"minieval: `self.{k}` is opaque")
+                    return state[k]
+                if isinstance(e.func, ast.Attribute) and e.func.attr == "items" and not e.args:
+                    v = self._ev(e.func.value, env)
+                    if isinstance(v, dict):
+                        return [(k, x) for k, x in v.items()]
+            return super()._ev(e, env)
+
+    return Ev(consts, skip_calls=("runLog.", "self.validate"), resolver=lambda nm: idx.fold(m, nm)), consts
+
+
+def r18_global_filter_reaches_every_collection(idx, r):
+    """The valid-block-type filter is ONE global setting; each XS id may override it.  An XS id that does not must end up with the global
+    filter, or its collection takes every member as a candidate and the representative block is averaged over non-eligible blocks.
+    (a) For every geometry whose table of valid inputs (`_VALID_INPUTS_BY_GEOMETRY_TYPE`) lists validBlockTypes, `setDefaults` of
+    XSModelingOptions (and of every subclass that overrides it) is EVALUATED EXACTLY on an object built by the class's own __init__ - for
+    global filters [..] / False / True / None, with and without an own filter, with and without an external flux file - and the resulting
+    `validBlockTypes` is compared with the documented contract (own value wins; list -> that list; False -> ['fuel']; True / None -> None).
+    (b) The forwarders: every `setDefaults` call in XSSettings hands over the global filter it was given (directly, or through the one
+    attribute that stores it), and blockCollectionFactory passes `<settings>.validBlockTypes` to the collection's constructor."""
+    from ..minieval import Raised
+
+    m = idx.module(S)
+    base = idx.cls(S + ".XSModelingOptions")
+    init = base.methods.get("__init__")
+    if init is None or "_VALID_INPUTS_BY_GEOMETRY_TYPE" not in m.consts:
+        raise AnchorMissing("XSModelingOptions.__init__ / _VALID_INPUTS_BY_GEOMETRY_TYPE")
+    state = {}
+    ev, consts = _settings_evaluator(idx, m, base, state)
+    key = consts.get("CONF_BLOCKTYPES")
+    if not isinstance(key, str):
+        raise AnchorMissing("CONF_BLOCKTYPES")
+    table = ev._ev(m.consts["_VALID_INPUTS_BY_GEOMETRY_TYPE"], dict(consts))
+    if not isinstance(table, dict) or len(table) < 2:
+        raise AnalysisError("_VALID_INPUTS_BY_GEOMETRY_TYPE is not a table geometry -> valid inputs")
+    geoms = [g for g, valid in table.items() if key in valid]
+    if not geoms:
+        raise AnchorMissing(f"no geometry lists {key} among its valid inputs")
+    a = init.node.args
+    pos = a.posonlyargs + a.args
+    dflt = dict(zip([x.arg for x in pos[len(pos) - len(a.defaults):]], [idx.fold(m, d) for d in a.defaults]))
+    if key not in dflt or "geometry" not in dflt or "fluxFileLocation" not in dflt:
+        raise AnchorMissing(f"XSModelingOptions.__init__ parameters geometry / fluxFileLocation / {key}")
+
+    def want(glob, own):
+        if own is not None:
+            return own
+        if glob is True or glob is None:
+            return None
+        return ["fuel"] if glob is False else glob
+
+    for c in [base] + idx.subclasses(base):
+        f = c.methods.get("setDefaults")
+        if f is None:
+            continue
+        ps = f.params()[1:]
+        evc = ev if c is base else _settings_evaluator(idx, c.module, c, state)[0]
+        if key not in ps:
+            raise AnchorMissing(f"{c.name}.setDefaults has no parameter `{key}`")
+        for g in geoms:
+            bad = None
+            for own in (None, ["reflector"]):
+                for flux in (None, "flux.ascii"):
+                    for glob in (["fuel"], ["fuel", "control"], False, True, None):
+                        args = {x.arg: dflt.get(x.arg) for x in pos[1:]}
+                        args.update({pos[1].arg: "AA", "geometry": g, "fluxFileLocation": flux, key: list(own) if own else None})
+                        state.clear()
+                        try:
+                            ev.run(init.node, args)
+                            evc.run(f.node, {p: (list(glob) if isinstance(glob, list) else glob) if p == key else f"<{p}>" for p in ps})
+                            got = state.get(key)
+                        except Raised as ex:
+                            got = f"raises {ex}"
+                        if got != want(glob, own) and bad is None:
+                            bad = (own, flux, glob, got)
+            r.require(bad is None, f"{c.name}.setDefaults:{g}:{key}-defaults-to-the-global-filter", f, node=f.node,
+                      msg="" if bad is None else f"XS id of geometry '{g}' (a geometry for which {key} is a valid input) with own {key} = {bad[0]!r}, fluxFileLocation = {bad[1]!r}, global filter {bad[2]!r}: "
+                                  f"after setDefaults its {key} is {bad[3]!r}, expected {want(bad[2], bad[0])!r} - the block collection of that XS id then selects its candidate blocks with the wrong "
+                                  "filter (None = every block type), and the representative block (densities, nuclide temperatures, burnup) is averaged over members that are not eligible")
+    # (b) forwarders
+    xs = idx.cls(S + ".XSSettings")
+    opt_pos = base.methods["setDefaults"].params()[1:].index(key)
+    n = 0
+    for name, f in xs.methods.items():
+        env = _copy_env(f.node)
+        for call in [c_ for c_ in iter_calls(f.node) if call_attr(c_) == "setDefaults" and isinstance(c_.func, ast.Attribute) and not norm(c_.func.value).startswith("super(")]:
+            n += 1
+            arg = get_arg_(call, opt_pos, key)
+            src = propagate(arg, env) if arg is not None else None
+            ok = False
+            if isinstance(src, ast.Name):
+                ok = src.id == key and key in f.params()
+            elif isinstance(src, ast.Attribute) and norm(src.value) == "self":
+                st = [(g_, s_) for g_ in xs.methods.values() for s_ in iter_stores(g_.node) if s_.base == "self" and s_.attr == src.attr]
+                vals = [(g_, propagate(s_.value, _copy_env(g_.node))) for g_, s_ in st if s_.kind == "assign" and s_.value is not None]
+                given = [v for g_, v in vals if isinstance(v, ast.Name) and v.id == key and key in g_.params()]
+                ok = len(vals) == len(st) and bool(given) and all(v in given or (isinstance(v, ast.Constant) and v.value is None) for _, v in vals)
+            r.require(ok, f"XSSettings.{name}:setDefaults-call:hands-over-the-global-filter", f, node=call,
+                      msg=f"`{norm(call)[:80]}` gives `{norm(arg) if arg is not None else None}` as the {key} default of the XS id: that is not the global filter XSSettings.setDefaults was given, so XS ids "
+                          "without an own filter build their representative blocks from blocks the user excluded")
+    if n < 2:
+        raise AnchorMissing("XSSettings: calls of XSModelingOptions.setDefaults (for the existing and for newly requested XS ids)")
+    fac = idx.func(M + ".blockCollectionFactory")
+    ctor = [c_ for c_ in iter_calls(fac.node) if isinstance(c_.func, ast.Subscript)]
+    if len(ctor) != 1 or not fac.params():
+        raise AnchorMissing("blockCollectionFactory: BLOCK_COLLECTIONS[...](...)")
+    bc_pos = idx.method(M + ".BlockCollection", "__init__").params()[1:].index(key)
+    arg = get_arg_(ctor[0], bc_pos, key)
+    src = norm(propagate(arg, _copy_env(fac.node))) if arg is not None else None
+    r.require(src == f"{fac.params()[0]}.{key}", f"blockCollectionFactory:collection-gets-the-{key}-of-its-settings", fac, node=ctor[0],
+              msg=f"the collection is constructed with {key} = `{src}` instead of `{fac.params()[0]}.{key}`: the filter configured for the XS id does not reach getCandidateBlocks, "
+                  "and the representative block is built from every member")
+
+
+def get_arg_(call, pos, name):
+    from ..astutil import get_arg
+    return get_arg(call, pos, name)
+
+
+def _copy_env(fnode):
+    """single_assign_env, plus the names bound exactly once by an element-wise tuple assignment `a, b = x, y`"""
+    env = dict(single_assign_env(fnode))
+    count = {}
+    for s_ in iter_stores(fnode):
+        if isinstance(s_.node, ast.Name):
+            count[s_.node.id] = count.get(s_.node.id, 0) + 1
+    params = {x.arg for x in fnode.args.posonlyargs + fnode.args.args + fnode.args.kwonlyargs}
+    for n in walk_local(fnode):
+        if isinstance(n, ast.Assign) and len(n.targets) == 1 and isinstance(n.targets[0], ast.Tuple) and isinstance(n.value, ast.Tuple) and len(n.targets[0].elts) == len(n.value.elts):
+            for t, v in zip(n.targets[0].elts, n.value.elts):
+                if isinstance(t, ast.Name) and count.get(t.id) == 1 and t.id not in params and t.id not in env:
+                    env[t.id] = v
+    return env
+
+
 def run(idx, chk):
     chk.explanation = (
         "C20: every weighted mean in the block-collection classes is typed with a role generator W for the weights: the result must be of degree "
@@ -717,3 +945,6 @@ def run(idx, chk):
                  necessary="each averaged quantity is the weight-normalised mean of the matching member values")
     chk.run_rule("R20.17", "new XS types are chosen among those not yet handed out; _getAllNucs unions every component", lambda r: r17_new_types_distinct_and_complete_unions(idx, r), floor=2,
                  necessary="every block belongs to exactly one group; each nuclide density of the representative is the mean over the members")
+    chk.run_rule("R20.18", "an XS id without an own valid-block-type filter gets the global one: setDefaults evaluated exactly for every geometry that admits validBlockTypes; XSSettings and blockCollectionFactory forward it",
+                 lambda r: r18_global_filter_reaches_every_collection(idx, r), floor=6,
+                 necessary="'the representative block of a group is built only from the group's eligible members', for all valid-block-type filters: the configured filter must reach the collection of every XS id")
